@@ -62,6 +62,13 @@ def build(engine, log, clock):
     kid_cfg = {"id": "kid", "initial": "s", "states": {"s": {"after": {"10": {
         "target": "s", "reenter": True, "actions": ["kidtick"]}}}}}
     kid = create_machine(kid_cfg, logic=MachineLogic(actions={"kidtick": mk("kidtick")}))
+    # a child that completes on its own after 23 ms while ITS child keeps ticking: the finished
+    # middle actor must not shield the grandchild from the root's stop()
+    kid2_cfg = {"id": "kid2", "initial": "s", "states": {
+        "s": {"entry": [{"type": "xstate.spawnChild", "params": {"src": "grand", "id": "g"}}],
+              "after": {"23": "f"}},
+        "f": {"type": "final"}}}
+    kid2 = create_machine(kid2_cfg, logic=MachineLogic(services={"grand": kid}))
     if engine == "async":
         async def svc(i, c, e):
             log.append((clock(), "svc-start"))
@@ -102,11 +109,16 @@ def build(engine, log, clock):
     def spawn_params(a):
         n["k"] += 1
         return {"src": "kid", "id": "k%d" % n["k"]}
+
+    def spawn2_params(a):
+        n["k"] += 1
+        return {"src": "kid2", "id": "j%d" % n["k"]}
     cfg = {"id": "m", "initial": "idle", "on": {"TICK": {"actions": ["tick"]}},
            "states": {
                "idle": {"after": {"500": {"actions": ["longtick"]}},
                         "on": {"WORK": "busy", "FIN": "fin", "FAIL": "failing", "SLOW": {"actions": ["slow"]},
                                "SPAWN": {"actions": [{"type": "xstate.spawnChild", "params": spawn_params}]},
+                               "SPAWN2": {"actions": [{"type": "xstate.spawnChild", "params": spawn2_params}]},
                                "DELAY": {"actions": [{"type": "xstate.raise", "params": {
                                    "event": "TICK", "delay": 20 if engine == "async" else 400}}]},
                                "STOPME": {"actions": ["stop_self", "after_stop_marker"]}}},
@@ -118,7 +130,7 @@ def build(engine, log, clock):
     acts = {k: mk(k) for k in ("tick", "timeout", "svcdone", "after_stop_marker", "longtick")}
     acts["slow"] = slow
     acts["stop_self"] = stop_self
-    return create_machine(cfg, logic=MachineLogic(actions=acts, services={"svc": svc, "bad": bad, "kid": kid}))
+    return create_machine(cfg, logic=MachineLogic(actions=acts, services={"svc": svc, "bad": bad, "kid": kid, "kid2": kid2}))
 
 
 def gen_script(rng):
@@ -129,7 +141,7 @@ def gen_script(rng):
         r = rng.random()
         if r < 0.5:
             ops.append("send:" + rng.choice(["WORK", "BACK", "SPAWN", "DELAY", "SLOW", "TICK", "WORK",
-                                             "SPAWN", "FIN", "FAIL", "STOPME"]))
+                                             "SPAWN", "SPAWN2", "SPAWN2", "FIN", "FAIL", "STOPME"]))
         elif r < 0.62:
             ops.append("wait:%d" % rng.choice([1, 5, 12, 16, 26, 40]))
         elif r < 0.74:
@@ -160,16 +172,29 @@ class Judge:
         self.res, self.engine, self.script = res, engine, script
         self.bad = None
         self.interesting = False
+        self.seen = {}
 
     def v(self, key, what):
         if self.bad is None:
             self.bad = (key + "/" + self.engine, what)
 
 
-def status_sink(writes):
+def status_sink(writes, seen=None):
     def sink(obj, old, new):
+        if seen is not None:
+            seen[id(obj)] = obj          # every interpreter whose status was ever written
         writes.append((id(obj), type(obj).__name__, getattr(obj, "id", None), old, new))
     return sink
+
+
+def census_seen(J):
+    """after the root's stop(): every interpreter this history ever created is stopped"""
+    for a in J.seen.values():
+        J.res.count("census.interpreters-checked")
+        if a.status not in ("stopped", "uninitialized"):
+            J.v("C14:descendant-actor-not-stopped", "interpreter %s is %s after the root's stop()" % (
+                a.id.split(":")[-2] if a.id.count(":") > 1 else a.id, a.status))
+            return
 
 
 def check_writes(J, writes, restored_ids):
@@ -189,7 +214,7 @@ def run_async(res, script, idx):
     J = Judge(res, "async", script)
     writes = []
     sw = observe.install_status_watch()
-    sw.sink = status_sink(writes)
+    sw.sink = status_sink(writes, J.seen)
     restored = {}
 
     async def body():
@@ -296,6 +321,7 @@ async def census_async(J, it, log, base_tasks, loop):
     for a in _descendants(it):
         if a.status not in ("stopped", "uninitialized"):
             J.v("C14:descendant-actor-not-stopped", "child %s is %s after parent stop()" % (a.id, a.status))
+    census_seen(J)
     n0 = len(log)
     await asyncio.sleep(0.12)      # past every pending delay (virtual)
     if len(log) != n0:
@@ -318,7 +344,7 @@ def run_sync(res, script, idx):
     J = Judge(res, "sync", script)
     writes = []
     sw = observe.install_status_watch()
-    sw.sink = status_sink(writes)
+    sw.sink = status_sink(writes, J.seen)
     restored = {}
     t0 = time.monotonic()
     log = []
@@ -425,6 +451,7 @@ def census_sync(J, it, log, kids):
         if a.status not in ("stopped", "uninitialized"):
             J.v("C14:descendant-actor-not-stopped", "child %s is %s after parent stop()" % (a.id, a.status))
             break
+    census_seen(J)
     n0 = len(log)
     time.sleep(0.045)
     if len(log) != n0:
